@@ -74,10 +74,12 @@ class PipelineModule(nn.Module):
 
     NAMES = ['1', 'a1x', '11', 'a2x', '21']
 
-    def __init__(self, layers, topology):
+    def __init__(self, layers, topology, prefix=''):
         super().__init__()
         self._order = []
-        for name, mod in zip(self.NAMES, layers):
+        # prefix: layer names are global in DeepSpeed, so another pipeline
+        # stage carries other names
+        for name, mod in zip([prefix + n for n in self.NAMES], layers):
             self.add_module(name, mod)
             self._order.append(name)
         self._topo = topology
